@@ -72,6 +72,12 @@ struct VCase {
 	create_gap: usize,
 	init: [f32; 4],
 	gaps: Vec<VGap>,
+	/// the sub-track persists until its sounds finish, and its handle is dropped in this gap right
+	/// after the gap's commands were written (the looping sound keeps the track alive)
+	persist_drop: Option<usize>,
+	/// the sound starts this many frames after it was played (0: at once); commands written while it
+	/// waits are read and run their tweens all the same
+	start_delay: usize,
 }
 
 fn gen_volumes(src: &mut Src) -> VCase {
@@ -94,7 +100,9 @@ fn gen_volumes(src: &mut Src) -> VCase {
 			frames: src.pick(&[64usize, 1, 7, 100, 200, 33]),
 		});
 	}
-	VCase { buf, create_gap, init, gaps }
+	let persist_drop = if src.chance(1, 4) { Some(src.usize_in(create_gap, n - 1)) } else { None };
+	let start_delay = if src.chance(1, 4) { src.pick(&[150usize, 1, 20, 64, 400]) } else { 0 };
+	VCase { buf, create_gap, init, gaps, persist_drop, start_delay }
 }
 
 fn run_volumes(c: &VCase) -> Result<Outcome, Failure> {
@@ -105,14 +113,22 @@ fn run_volumes(c: &VCase) -> Result<Outcome, Failure> {
 	let mut restart = false;
 	let mut fresh_cmd = false;
 	let mut since_creation = 0usize;
+	let mut since_start = 0usize;
+	let mut started = c.start_delay == 0;
+	let mut dropped_with_pending = false;
+	let mut cmd_while_waiting = false;
 	let mut t = 0usize;
 	for (g, gap) in c.gaps.iter().enumerate() {
 		if g == c.create_gap {
-			let mut tb = TrackBuilder::new().volume(Decibels(c.init[2]));
+			let mut tb = TrackBuilder::new().volume(Decibels(c.init[2])).persist_until_sounds_finish(c.persist_drop.is_some());
 			let ev = tb.add_effect(VolumeControlBuilder::new(Decibels(c.init[1])));
 			let mut track = mgr.add_sub_track(tb).map_err(|_| Failure::simple("setup", "track"))?;
-			let sound = track.play(dc_sound(c.init[0])).map_err(|_| Failure::simple("setup", "play"))?;
-			live = Some((track, ev, sound));
+			let mut data = dc_sound(c.init[0]);
+			if c.start_delay > 0 {
+				data.settings = data.settings.start_time(StartTime::Delayed(Duration::from_secs_f64(c.start_delay as f64 / RATE as f64)));
+			}
+			let sound = track.play(data).map_err(|_| Failure::simple("setup", "play"))?;
+			live = Some((Some(track), ev, sound));
 			since_creation = 0;
 		}
 		let mut pending: [Option<(f32, usize)>; 4] = [None; 4];
@@ -122,9 +138,10 @@ fn run_volumes(c: &VCase) -> Result<Outcome, Failure> {
 				(3, _) => mgr.main_track().set_volume(Decibels(*db), tw),
 				(0, Some((_, _, s))) => s.set_volume(Decibels(*db), tw),
 				(1, Some((_, e, _))) => e.set_volume(Decibels(*db), tw),
-				(2, Some((t, _, _))) => t.set_volume(Decibels(*db), tw),
+				(2, Some((Some(t), _, _))) => t.set_volume(Decibels(*db), tw),
 				_ => continue,
 			}
+			cmd_while_waiting |= !started && *res == 0;
 			burst |= pending[*res].is_some();
 			fresh_cmd |= g == c.create_gap && *res < 3;
 			pending[*res] = Some((*db, *dur));
@@ -133,6 +150,12 @@ fn run_volumes(c: &VCase) -> Result<Outcome, Failure> {
 			if let Some((db, dur)) = pending[r] {
 				restart |= model[r].tween.is_some();
 				model[r].set(db as f64, tween_frames(dur).duration.as_secs_f64());
+			}
+		}
+		if c.persist_drop == Some(g) {
+			if let Some((track, _, _)) = &mut live {
+				dropped_with_pending |= pending[2].is_some();
+				drop(track.take());
 			}
 		}
 		let cb = mgr.backend_mut().callback(gap.frames, 2);
@@ -156,8 +179,22 @@ fn run_volumes(c: &VCase) -> Result<Outcome, Failure> {
 				let want = if live.is_some() { model.iter().map(|m| m.amp_at(a)).product::<f64>().min(1.0) } else { 0.0 };
 				let (l, r) = cb.frame(i + j, 2);
 				let tol = 1e-4 * want.max(1e-3) + if crate::models::param::take_edge_hit() { 4e-3 } else { 0.0 };
+				// a sound with a delayed start is silent until the internal buffer in which the delay runs
+				// out; from then on it is judged like any other
+				if live.is_some() && !started {
+					if l == 0.0 && r == 0.0 {
+						ensure!(since_creation <= c.start_delay + 2 * c.buf + 8, "command-applied-exactly-once-at-next-callback", "a sound with a start delay of {} frames is still silent {since_creation} frames after it was played; case {c:?}", c.start_delay);
+						since_creation += 1;
+						continue;
+					}
+					// (it begins with the internal buffer during which the delay runs out: up to one buffer
+					// before the delay is over; when exactly a delayed start falls is C03's matter)
+					ensure!(since_creation + c.buf + 1 >= c.start_delay, "command-applied-exactly-once-at-next-callback", "a sound with a start delay of {} frames is audible {since_creation} frames after it was played; case {c:?}", c.start_delay);
+					started = true;
+					since_start = 0;
+				}
 				// the sound's first frames pass through its resampler (silence before the first frame)
-				let starting = live.is_some() && since_creation < 4;
+				let starting = live.is_some() && since_start < 4;
 				let ok = |x: f32| if starting { (x as f64) <= want + tol && x >= 0.0 } else { (x as f64 - want).abs() <= tol };
 				if !(ok(l) && ok(r)) {
 					let sig = if g == c.create_gap { "command-before-first-callback-applied" } else { "command-applied-exactly-once-at-next-callback" };
@@ -165,6 +202,7 @@ fn run_volumes(c: &VCase) -> Result<Outcome, Failure> {
 				}
 				if live.is_some() {
 					since_creation += 1;
+					since_start += 1;
 				}
 			}
 			i += len;
@@ -180,6 +218,12 @@ fn run_volumes(c: &VCase) -> Result<Outcome, Failure> {
 	}
 	if fresh_cmd {
 		classes.push("command-before-first-callback");
+	}
+	if dropped_with_pending {
+		classes.push("handle-dropped-in-the-gap-of-its-last-command");
+	}
+	if cmd_while_waiting {
+		classes.push("command-to-a-sound-waiting-for-its-start");
 	}
 	Ok(Outcome {
 		nontrivial: burst || restart || fresh_cmd,
@@ -1130,7 +1174,7 @@ impl Property for C07 {
 		"C07"
 	}
 	fn rule(&self) -> &'static str {
-		"each case is one of seven generated scenario families run through the real manager (device rate 8192 Hz, internal buffer 1..128, callback sizes 1..250). V: volume setters with linear tweens of 0..2000 frames on four resources of one signal path (static DC sound, volume-control effect, sub-track, main track), 0..5 commands per gap with bursts on one resource, the path created before the first or a later callback with commands in the same gap; the output is compared frame by frame (1e-4) with a reference that applies the last command of each kind once at the start of the next callback. T: probe Sound / Effect / Modulator objects built on kira::command read a token reader once per on_start_processing; tokens are written 0..4 per gap, also before the probe is added (main-track effect, sub-track effect, effect on a track nested under an existing track, sound on main / existing / just-created / just-created nested track, modulator), and a third of the tracks that hold a probe are paused at some gap; the log of reads must be exactly the last token of every burst, once, in the callback that follows, and on_start_processing must run once per callback from the first one. P: a static ramp sound receives bursts of seek_to / seek_by: the audible index must jump exactly once, in the first 4 frames of the next callback, by the last command's amount (3 frames slack), and never otherwise; a streaming sound receives seek and loop-region bursts while its decoder gets 0..130 steps per gap (hook H2): the indices it delivers must equal a reference transport that applies the last command of each kind at its next step. K: clock start / pause / stop / set_speed bursts against a reference clock (reported time and ticking flag after every callback) and tweener set() bursts observed through a parameter linked to it (1e-9). R: a writer thread publishes 200..20000 self-checking values through one CommandWriter while this thread polls the reader with generated spin patterns: values read are untorn, strictly newer than the previous one, and the last write is read. H: a gameplay thread plays a DC sound and raises sound and track volume monotonically while this thread runs callbacks: the output never decreases, stays in range, and ends at exactly the last written value. S: for each of 43 setters (sound / streaming sound volume, panning, playback rate; track volume and send; send-track and main volume; spatial position, strength, volume; listener position and orientation; every setter of filter, EQ, delay, reverb, compressor, distortion, panning and volume control; tweener set; LFO amplitude, offset, frequency, waveform) a scene built with value A receives the setter with B - alone or as the last of a burst, before the first or a later callback, instantly or with a tween of up to 4096 frames - and, once the tween and the effect memory have run out (0.75 s, reverb 3 s), its steady state (RMS, mean, sign changes per channel over 4096 frames; 1 %, LFO 6 %) must equal that of a scene built with B; the case counts only if the same measure tells A and B apart. Non-trivial = a burst of one kind within a gap, a command while a tween is active, a command before the resource's first callback, a decoder step later than the next callback, (R, H) reads / callbacks that really interleaved with the writes, or (S) a setter whose two values are told apart; distinct = distinct decoded choices."
+		"each case is one of seven generated scenario families run through the real manager (device rate 8192 Hz, internal buffer 1..128, callback sizes 1..250). V: volume setters with linear tweens of 0..2000 frames on four resources of one signal path (static DC sound, volume-control effect, sub-track, main track), 0..5 commands per gap with bursts on one resource, the path created before the first or a later callback with commands in the same gap, in a quarter of the cases the sound starts 1..400 frames after it was played (commands written while it waits run their tweens all the same) and in a quarter the persisting sub-track's handle is dropped in a gap right after that gap's commands were written; the output is compared frame by frame (1e-4) with a reference that applies the last command of each kind once at the start of the next callback. T: probe Sound / Effect / Modulator objects built on kira::command read a token reader once per on_start_processing; tokens are written 0..4 per gap, also before the probe is added (main-track effect, sub-track effect, effect on a track nested under an existing track, sound on main / existing / just-created / just-created nested track, modulator), and a third of the tracks that hold a probe are paused at some gap; the log of reads must be exactly the last token of every burst, once, in the callback that follows, and on_start_processing must run once per callback from the first one. P: a static ramp sound receives bursts of seek_to / seek_by: the audible index must jump exactly once, in the first 4 frames of the next callback, by the last command's amount (3 frames slack), and never otherwise; a streaming sound receives seek and loop-region bursts while its decoder gets 0..130 steps per gap (hook H2): the indices it delivers must equal a reference transport that applies the last command of each kind at its next step. K: clock start / pause / stop / set_speed bursts against a reference clock (reported time and ticking flag after every callback) and tweener set() bursts observed through a parameter linked to it (1e-9). R: a writer thread publishes 200..20000 self-checking values through one CommandWriter while this thread polls the reader with generated spin patterns: values read are untorn, strictly newer than the previous one, and the last write is read. H: a gameplay thread plays a DC sound and raises sound and track volume monotonically while this thread runs callbacks: the output never decreases, stays in range, and ends at exactly the last written value. S: for each of 43 setters (sound / streaming sound volume, panning, playback rate; track volume and send; send-track and main volume; spatial position, strength, volume; listener position and orientation; every setter of filter, EQ, delay, reverb, compressor, distortion, panning and volume control; tweener set; LFO amplitude, offset, frequency, waveform) a scene built with value A receives the setter with B - alone or as the last of a burst, before the first or a later callback, instantly or with a tween of up to 4096 frames - and, once the tween and the effect memory have run out (0.75 s, reverb 3 s), its steady state (RMS, mean, sign changes per channel over 4096 frames; 1 %, LFO 6 %) must equal that of a scene built with B; the case counts only if the same measure tells A and B apart. Non-trivial = a burst of one kind within a gap, a command while a tween is active, a command before the resource's first callback, a decoder step later than the next callback, (R, H) reads / callbacks that really interleaved with the writes, or (S) a setter whose two values are told apart; distinct = distinct decoded choices."
 	}
 	fn assumptions(&self) -> Vec<String> {
 		vec![
